@@ -36,11 +36,16 @@ THEOREMS = [
     "HedVerif.C01.injected_bad_unit",
     "HedVerif.C01.injected_bad_value",
     "HedVerif.C01.injected_undeclared_def",
+    "HedVerif.C01.injected_wrong_valued_def",
+    "HedVerif.C01.injected_altered_def_expand",
     "HedVerif.C01.injected_misplaced_tag_group",
     "HedVerif.C01.injected_misplaced_top_level",
     "HedVerif.C01.injected_duplicated_unique",
     "HedVerif.C01.injected_repeated",
     "HedVerif.C01.valid_no_error_partial",
+    "HedVerif.C01.issue_indices_in_tag",
+    "HedVerif.C01.issue_char_index_in_text",
+    "HedVerif.C01.Tiny.def_value_index_counterexample",
 ]
 BUDGET = {"quick": 600, "thorough": 3000}
 
@@ -51,7 +56,9 @@ FLAGS = [("ext", "extensionAllowed"), ("tv", "takesValue"), ("rc", "requireChild
          ("tl", "topLevelTagGroup"), ("uq", "unique"), ("rq", "required"), ("dep", "deprecatedFrom")]
 # non-ASCII characters of the fuzz alphabet: casefold leaves every one unchanged, none is a digit
 NONASCII = ["\u00e9", "\u4e2d", "\u00f1", "\u20ac", "\u2192", "\u00a0", "\u200b", "\u0085", "\u3000", "\U0001F600"]
-DEFS = "(Definition/A, (Red)), (Definition/B, (Blue, (Green))), (Definition/C/#, (Label/#))"
+# the declared definitions: (name, takes a value, text of the content group's children; "" = no content group)
+DEF_LIST = [("A", False, "Red"), ("B", False, "Blue, (Green)"), ("C", True, "Label/#"), ("D", True, "Item-count/#"),
+            ("U", True, "Distance/# m"), ("E", False, ""), ("P", True, "Label/aaaaaaaaaaaaaaaaaaaaaaaa#")]
 SPEC = {  # the property statement's table: injected rule violation -> published code
     "unknown_tag": "TAG_INVALID", "forbidden_extension": "TAG_EXTENSION_INVALID",
     "forbidden_extension_term": "TAG_EXTENSION_INVALID", "missing_required_child": "TAG_REQUIRES_CHILD",
@@ -66,7 +73,24 @@ SPEC = {  # the property statement's table: injected rule violation -> published
 # violations of these kinds belong to a known defect family (the duplicate check only compares neighbours of a sort that
 # does not bring equal elements together): narrow signature, listed in known_findings.json or fixed by C04's patch
 SIGNATURES = {"repeated_group_reordered": "C01-repeated-group-order-dependent"}
-DICT_KINDS = {"wrong_def_value", "altered_def_expand"}     # need a definition dictionary: implementation oracle only
+
+
+def defs_for(v):
+    """the definitions whose content tags exist in this vocabulary (none when it has no Def / Definition tag)"""
+    shorts = {v.short(i) for i in range(len(v.long))}
+    if not {"Def", "Def-expand", "Definition"} <= shorts:
+        return []
+    out = []
+    for name, takes, text in DEF_LIST:
+        tags = [t.strip(" ()").split("/")[0] for t in text.split(",") if t.strip(" ()")]
+        if all(t in shorts for t in tags):
+            out.append((name, takes, text))
+    return out
+
+
+def defs_string(defs):
+    return ", ".join(f"(Definition/{n}{'/#' if takes else ''}" + (f", ({text}))" if text else ")") for n, takes, text in defs)
+
 FIXTURES = [
     "", " ", "n/a", " n/a ", "N/A", "(n/a)", "n/a, Red", "Red", "red", "RED", "Red,Blue", "Red, Red", "Red, red", "(Red), (Red)",
     "(Red, Blue), (Blue, Red)", "((Red)), ((Red))", "Red,,Blue", ",Red", "Red,", "Red, ", "(Red,)", "(,Red)", "()", "(())",
@@ -96,6 +120,17 @@ FIXTURES = [
     "Fraction/5.", "Fraction/1e-3", "Fraction/+1", "Fraction/--1", "Green, (Blue, (Red, (Yellow, (Purple))))", "Informational-property",
     "Property/Informational-property/Label/x", "informational-property/label/x", "LABEL/X", "label", "Visual-presentation, Red",
     "(Visual-presentation, (Red)), (Visual-presentation, (Red))", "(Red, (Blue)), (Red, (Blue))", "((Red), Blue), (Blue, (Red))",
+    "Def/C/x1", "Def/C/x$1", "Def/C/x 1", "Def/D/3", "Def/D/abc", "Def/U/3 m", "Def/U/3", "Def/U/3 zz", "Def/U/abc m", "Def/U/3$ m",
+    "(Def-expand/C/x1, (Label/x1))", "(Def-expand/C/x1, (Label/x2))", "(Def-expand/A, (Red))", "(Def-expand/A, (Blue))",
+    "(Def-expand/B, ((Green), Blue))", "(Def-expand/B, (Blue))", "((Red), Def-expand/A)", "(Def-expand/A)", "(Def-expand/A, Red)",
+    "Def/P/x$", "Def/P/x", "Def/P/x$y$", "(Def-expand/P/x, (Label/aaaaaaaaaaaaaaaaaaaaaaaax))", "Def/C/a$b$c", "Def/U/3$ m", "Def/D/3$",
+    "Def/E", "(Def-expand/E)", "(Def-expand/E, (Red))", "Def/E/1", "Def/A$", "Def/A b", "Def/C/#", "Def/C/", "Def/C//x", "Def/c/X1", "def/a",
+    "(Def-expand/A, (Red)), (Def-expand/A, (Red))", "(Def-expand/A, (Red), (Red))", "(Def-expand/A, Def-expand/B, (Red))",
+    "(Def/D/3, Onset)", "(Def/A, Onset, Red)", "(Def/A, Def/B, Onset)", "(Onset, (Def-expand/A, (Red)))", "(Def/A, Offset, (Red))",
+    "(Def/C, Onset)", "(Def/A/3, Onset)", "(Def/Q, Onset)", "(Def/A, Onset, (Red), (Blue))", "(Def/A, Onset, Delay/3 s, (Red))",
+    "(Def/A, Offset)", "(Def/A, Inset)", "(Def/A, Onset, Offset)", "(Def/A, Onset), (Def/A, Onset)", "(Def/A, Onset, Delay/3 s, Delay/2 s)",
+    "((Def-expand/A, (Red)), (Def-expand/B, (Blue, (Green))), Onset)", "(Def/A, (Def-expand/B, (Blue, (Green))), Onset)",
+    "(Def/A, Onset, Red, (Blue))", "(Def/A, Onset, ())", "(Def/A, Inset, Blue)", "(Onset, Def/A, (Def/B))", "(Duration/3 s, (Def/A))",
     "(),()", "((())),((()))", "(Red,()),(Red,())", "(Red,Blue),(Green),(Blue,Red)", "(Red,Blue),(Blue,Red)",
     "Label/ABC, Label/abc", "Label/ABC, Label/Abd, Label/abc", "Red, Blue, Red", "Red, Blue/Xx, Blue/xx", "Blue/Xx, Blue/Xx", "Label/a, Label/A", "Label/a, label/a",
 ]
@@ -194,7 +229,8 @@ class Vocab:
         return (n[:-2] if n.endswith("/#") else n).split("/")[-1]
 
     def payload(self, chars):
-        return {"tags": self.long, "attrs": self.attrs, "mods": self.mods, "classes": self.classes, "modern": self.modern,
+        return {"defs": [{"key": n.casefold(), "takes": takes, "text": text} for n, takes, text in getattr(self, "defs", [])],
+                "tags": self.long, "attrs": self.attrs, "mods": self.mods, "classes": self.classes, "modern": self.modern,
                 "nonprintable": [ord(c) for c in chars if not c.isprintable()], "space": [ord(c) for c in chars if c.isspace()],
                 "alnum": [ord(c) for c in chars if c.isalnum()], "alpha": [ord(c) for c in chars if c.isalpha()]}
 
@@ -258,6 +294,10 @@ def impl_validate(HedString, schema, text, ph, dd=None):
 
 
 # ------------------------------------------------------------------------------------------ generator
+
+class Sealed(list):
+    """a group whose shape is prescribed (Def-expand, Onset/Offset/Inset, Duration/Delay): no insertion inside"""
+
 
 class Gen:
     def __init__(self, rng, v, plural):
@@ -373,11 +413,64 @@ class Gen:
             if self.rng.random() < 0.3 and "Delay" in self.by_short:
                 dl = self.by_short["Delay"]
                 g.insert(1, self.form(dl) + "/" + self.unit_text(self.v.value_child(dl)))
-            top.insert(self.rng.randint(0, len(top)), g)
+            top.insert(self.rng.randint(0, len(top)), Sealed(g))
+        if getattr(self.v, "defs", None) and self.rng.random() < 0.3:
+            usedefs = set()
+            for _ in range(self.rng.randint(1, 2)):
+                it = self.def_item(usedefs)
+                if it is not None:
+                    self.put(top, it[0], nested=False if it[1] else None)
         return top
 
     def spell(self, short):
         return self.form(self.by_short[short])
+
+    def def_value(self, name):
+        self.uid += 1
+        return {"C": f"nm{self.uid}", "D": self.rng.choice(["3", "12", "0.5"]), "U": self.rng.choice(["3", "2.5"]), "P": f"v{self.uid}"}.get(name)
+
+    def def_tag(self, base, name, value=None):
+        nm = self.rng.choice([name, name, name.lower()])
+        return self.spell(base) + "/" + nm + ("/" + value if value is not None else "")
+
+    def def_expand(self, name, value=None):
+        """a correct Def-expand group of a declared definition"""
+        text = dict((n, t) for n, _, t in self.v.defs)[name]
+        tag = self.def_tag("Def-expand", name, value)
+        if not text:
+            return Sealed([tag])
+        content = {"A": ["Red"], "B": self.rng.choice([["Blue", ["Green"]], [["Green"], "Blue"]]), "C": [f"Label/{value}"],
+                   "D": [f"Item-count/{value}"], "U": [f"Distance/{value} m"],
+                   "P": [f"Label/aaaaaaaaaaaaaaaaaaaaaaaa{value}"]}[name]
+        g = [tag, Sealed(content)]
+        if self.rng.random() < 0.3:
+            g.reverse()
+        return Sealed(g)
+
+    def def_item(self, usedefs):
+        """(node, must be at top level) using a declared definition correctly; None when none is left"""
+        free = [d for d in self.v.defs if d[0] not in usedefs]
+        if not free:
+            return None
+        name, takes, _ = self.rng.choice(free)
+        usedefs.add(name)
+        value = self.def_value(name) if takes else None
+        r = self.rng.random()
+        if r < 0.35:
+            return self.def_tag("Def", name, value), False
+        if r < 0.6:
+            return self.def_expand(name, value), False
+        anchors = [a for a in ("Onset", "Offset", "Inset") if a in self.by_short]
+        if not anchors:
+            return self.def_tag("Def", name, value), False
+        a = self.rng.choice(anchors)
+        g = [self.def_tag("Def", name, value) if self.rng.random() < 0.7 else self.def_expand(name, value), self.spell(a)]
+        if a != "Offset" and self.rng.random() < 0.6:
+            g.append([self.form(self.rng.choice(self.noext))])
+        if "Delay" in self.by_short and self.v.base(self.by_short["Delay"])["tl"] and self.rng.random() < 0.2:
+            g.append(self.form(self.by_short["Delay"]) + "/" + self.unit_text(self.v.value_child(self.by_short["Delay"])))
+        self.rng.shuffle(g)
+        return Sealed(g), True
 
     # ---- rendering
     def render(self, nodes):
@@ -395,7 +488,7 @@ class Gen:
     def groups_of(tree):
         out = [tree]
         for n in tree:
-            if isinstance(n, list):
+            if isinstance(n, list) and not isinstance(n, Sealed):
                 out += Gen.groups_of(n)
         return out
 
@@ -505,11 +598,21 @@ class Gen:
         elif kind == "wrong_def_value":
             if "Def" not in self.by_short:
                 return None
-            self.put(tree, self.spell("Def") + rng.choice(["/A/3", "/C", "/B/x"]))
+            names = {d[0] for d in v.defs}
+            opts = [x for x in ["/A/3", "/C", "/B/x", "/D", "/E/1"] if x.split("/")[1] in names]
+            if not opts:
+                return None
+            self.put(tree, self.spell("Def") + rng.choice(opts))
         elif kind == "altered_def_expand":
             if "Def-expand" not in self.by_short:
                 return None
-            self.put(tree, [self.spell("Def-expand") + "/A", [self.form(rng.choice(self.noext)) if False else "Blue"]], nested=None)
+            names = {d[0] for d in v.defs}
+            opts = [x for x in [("A", None, ["Blue"]), ("B", None, ["Blue"]), ("B", None, ["Blue", ["Green"], "Red"]),
+                                ("C", "x1", ["Label/x2"]), ("A", None, None), ("E", None, ["Red"])] if x[0] in names]
+            if not opts:
+                return None
+            nm, val, content = rng.choice(opts)
+            self.put(tree, [self.def_tag("Def-expand", nm, val)] + ([content] if content is not None else []))
         text = self.render(tree)
         if kind == "unbalanced":
             r = rng.random()
@@ -549,7 +652,8 @@ class Gen:
 def fuzz_strings(rng, g, n):
     v = g.v
     specials = list("#{}[]~:/ ,()$.-_+^") + ["\t", "\n", " ", ", ", ",", "(", ")", "/"] + NONASCII + ["\x07", "\x1c"]
-    frags = ["Def", "Def-expand", "Definition", "Onset", "Offset", "Inset", "Duration", "Delay", "Event-context", "n/a",
+    frags = ["Def/A", "Def/C/x", "Def/D/3", "Def/U/3 m", "Def/B/x", "Def/C", "Def-expand/A", "(Def-expand/A, (Red))", "(Def-expand/C/x, (Label/x))",
+             "(Def/A, Onset)", "(Def/B, Offset)", "(Def/A, Inset, (Red))", "Def/Zz", "Def", "Def-expand", "Definition", "Onset", "Offset", "Inset", "Duration", "Delay", "Event-context", "n/a",
              "3", "3 s", "ms", "abc", "#", "sc:", "x", "Label", "ID", "Red", "Blue", "Item", "Object", "Xyz"]
     out = []
     for _ in range(n):
@@ -634,7 +738,8 @@ def _detect_variant():
     src = lambda rel: (common.REPO / rel).read_text()
     return {"sortCanonical": "_sort_key" in src("hed/models/hed_group.py"),
             "eqFold": "self.short_tag.casefold() == other.short_tag.casefold()" in src("hed/models/hed_tag.py"),
-            "emptyDupSafe": "isinstance(found_group, list) and found_group" in src("hed/validator/util/group_util.py")}
+            "emptyDupSafe": "isinstance(found_group, list) and found_group" in src("hed/validator/util/group_util.py"),
+            "defCharRelocate": "_relocate_errors" in src("hed/validator/util/class_util.py")}
 
 
 def run_cases(ctx, v, cases):
@@ -658,6 +763,9 @@ def run_cases(ctx, v, cases):
 
 def compare(ctx, stream, case, m, impl, exc):
     """complete canonical issue lists; returns True when compared"""
+    if not m.get("stable", True):
+        # hypothesis of C01.issue_indices_in_tag (C03's fixpoint): never observed false on a bundled schema
+        ctx.disagree("LookupStable (re-resolving an identified tag from its short form changes nothing)", case, False, True)
     if m["unmodelled"]:
         ctx.count(f"{stream}:skipped-unmodelled")
         return False
@@ -682,7 +790,10 @@ def run_schema(ctx, name, n_grammar, n_fuzz, sweep):
     rng = ctx.rng
     v = Vocab(name, pluralize.plural)
     schema = load_schema_version(name)
-    dd = DefinitionDict(DEFS, schema) if "Def" in {v.short(i) for i in range(len(v.long))} else None
+    v.defs = defs_for(v)
+    dd = DefinitionDict(defs_string(v.defs), schema) if v.defs else None
+    if dd is not None and (dd.issues or len(dd.defs) != len(v.defs)):
+        raise RuntimeError(f"the harness's own definitions are not accepted: {dd.issues}")
     check_attrs(ctx, v, schema)
     g = Gen(rng, v, pluralize.plural)
     kinds = list(SPEC)
@@ -690,21 +801,14 @@ def run_schema(ctx, name, n_grammar, n_fuzz, sweep):
     for k in range(n_grammar):
         ph = rng.random() < 0.5
         if k % 2 == 0:
-            tree = g.conforming(ph)
-            if rng.random() < 0.15 and dd is not None:
-                g.put(tree, rng.choice([g.spell("Def") + "/A", g.spell("Def") + "/C/x1", [g.spell("Def-expand") + "/A", ["Red"]],
-                                        [g.spell("Def") + "/B", g.spell("Onset"), [g.form(rng.choice(g.noext))]]]),
-                      nested=False)
-                cases.append(("grammar", "conforming", g.render(tree), ph, True))
-            else:
-                cases.append(("grammar", "conforming", g.render(tree), ph, False))
+            cases.append(("grammar", "conforming", g.render(g.conforming(ph)), ph, dd is not None))
         else:
             kind = kinds[(k // 2) % len(kinds)]
             text = g.inject(kind, g.conforming(ph), ph)
             if text is None:
                 ctx.count(f"inj-not-applicable:{name}:{kind}")
                 continue
-            cases.append(("grammar", kind, text, ph, kind in DICT_KINDS))
+            cases.append(("grammar", kind, text, ph, dd is not None))
     if sweep:
         # every tag x every suffix form as a plain tag / with a value of its class
         for i in range(len(v.long)):
@@ -721,9 +825,9 @@ def run_schema(ctx, name, n_grammar, n_fuzz, sweep):
                 if v.attrs[i]["rc"]:
                     continue
             for k in range(1, len(comps) + 1):
-                cases.append(("sweep", "conforming", "/".join(comps[-k:]) + tail, False, False))
+                cases.append(("sweep", "conforming", "/".join(comps[-k:]) + tail, False, dd is not None))
     for s in FIXTURES + fuzz_strings(rng, g, n_fuzz):
-        cases.append(("fuzz", "fuzz", s, rng.random() < 0.5, False))
+        cases.append(("fuzz", "fuzz", s, rng.random() < 0.5, dd is not None))
     answers = run_cases(ctx, v, [(c[2], c[3]) for c in cases])
     for n_done, ((stream, kind, text, ph, needs_dict), m) in enumerate(zip(cases, answers)):
         if n_done % 2000 == 0:
@@ -734,11 +838,10 @@ def run_schema(ctx, name, n_grammar, n_fuzz, sweep):
         ctx.case((name, ph, text, needs_dict), nontrivial=interesting,
                  sample=case if stream == "grammar" and rng.random() < 0.004 else None)
         ctx.count(f"{stream}:cases")
-        if not needs_dict:
-            if compare(ctx, stream, case, m, impl, exc):
-                ctx.count(f"{stream}:compared")
-        else:
-            ctx.count("grammar:dictionary-case (implementation oracle only)")
+        if compare(ctx, stream, case, m, impl, exc):
+            ctx.count(f"{stream}:compared")
+        if any(x in text.casefold() for x in ("def/", "def-expand/")):
+            ctx.count(f"{stream}:cases-with-Def")
         if stream == "fuzz":
             continue
         # ---- direct oracle on the implementation
@@ -765,16 +868,17 @@ def run(ctx):
                          "with accepted units, Event-context/Duration/Delay groups, nesting <= 3, no repeated siblings) and one "
                          "injected violation per kind; fuzz: random strings over tags, fragments, delimiters, #{}[]~:, "
                          "non-ASCII, control characters + fixtures; non-trivial = injected, fuzz, or has a group")
-    ctx.notes.append("model = HedString(text, schema) without definitions, one schema, default error handler; "
-                     "Def/Def-expand with a declared dictionary, wrongly valued Def and altered Def-expand are checked by the "
-                     "direct oracle on the implementation only")
+    ctx.notes.append("model = HedString(text, schema, def_dict) with the definition dictionary as data (content text resolved by the "
+                     "model), one schema, default error handler; every grammar / sweep / fuzz case is compared on complete issue lists")
+    ctx.notes.append("hypotheses of C01.issue_indices_in_tag: LookupStable is evaluated by the driver on every case (a false answer is "
+                     "a disagreement); the Def-value index rule has two source-detected variants (fixes/C01_def_value_char_index.diff)")
     ctx.notes.append("str.isprintable/isspace/isalnum/isalpha of the non-ASCII characters used are data computed by CPython; "
                      "casefold = ASCII lower-casing on the alphabet used (checked per batch)")
     ctx.extra["spec_table"] = SPEC
     if ctx.quick():
-        run_schema(ctx, "8.3.0", 3000, 7000, False)
-        run_schema(ctx, "8.2.0", 600, 1500, False)
-        run_schema(ctx, "score_1.1.0", 400, 800, False)
+        run_schema(ctx, "8.3.0", 3000, 5000, False)
+        run_schema(ctx, "8.2.0", 500, 1000, False)
+        run_schema(ctx, "score_1.1.0", 250, 400, False)
     else:
         for n in ALL_SCHEMAS:
             run_schema(ctx, n, 6000 if n == "8.3.0" else 2000, 120000 if n == "8.3.0" else 18000, True)
@@ -798,14 +902,14 @@ def replay(ctx, rec):
     name = case["schema"]
     v = Vocab(name, pluralize.plural)
     schema = load_schema_version(name)
-    dd = DefinitionDict(DEFS, schema) if case.get("dict") else None
+    v.defs = defs_for(v) if case.get("dict", True) else []
+    dd = DefinitionDict(defs_string(v.defs), schema) if v.defs else None
     m = run_cases(ctx, v, [(case["text"], case["ph"])])[0]
     impl, exc = impl_validate(HedString, schema, case["text"], case["ph"], dd)
     print("text: ", repr(case["text"]), "placeholders:", case["ph"])
     print("model:", json.dumps(sorted((canon_model(i) for i in m["issues"]), key=json.dumps)), "raises:", m["raises"])
     print("impl: ", json.dumps(impl), "raised:", exc)
-    if not case.get("dict"):
-        compare(ctx, case.get("stream", "replay"), case, m, impl, exc)
+    compare(ctx, case.get("stream", "replay"), case, m, impl, exc)
     if exc is None and case.get("stream") in ("grammar", "sweep"):
         errs = [i for i in impl if i[2] < 10]
         kind = case["kind"]
